@@ -36,9 +36,11 @@ theorem abs_artanh_lt {y m : ℝ} (hy : |y| < Real.tanh m) : |Real.artanh y| < m
 /-! ### Affine / Loc / Scale -/
 theorem affine_lawful {C : Type} (p : Affine ℝ) (h : p.scale ≠ 0) :
     (p.toBij : Bij ℝ C ℝ).Lawful univ univ := by
-  refine ⟨fun _ _ _ => trivial, fun _ _ _ => trivial, ?_, ?_, fun _ _ => rfl, fun _ _ => rfl⟩
+  refine ⟨fun _ _ _ => trivial, fun _ _ _ => trivial, ?_, ?_, ?_, ?_⟩
   · intro x _ _; simp only [Affine.toBij, Affine.inverse, Affine.transform]; field_simp; ring
   · intro y _ _; simp only [Affine.toBij, Affine.inverse, Affine.transform]; field_simp; ring
+  · intro x _; simp only [Affine.toBij, Affine.transform_and_log_det, Affine.transform] <;> ring
+  · intro y _; simp only [Affine.toBij, Affine.inverse_and_log_det, Affine.inverse] <;> ring
 
 theorem loc_lawful {C : Type} (p : Loc ℝ) : (p.toBij : Bij ℝ C ℝ).Lawful univ univ := by
   refine ⟨fun _ _ _ => trivial, fun _ _ _ => trivial, ?_, ?_, fun _ _ => rfl, fun _ _ => rfl⟩
